@@ -65,7 +65,66 @@ class C06(Prop):
     thorough_cases = 1500000
     shrink_data = False
 
+    def shrinkable(self, case):
+        return not case.get('modular')
+
+    def gen_shared_term(self, rng):
+        """A named arithmetic sub-formula shared between a predicate that also mentions a variable of the other
+        io class and a predicate that mentions nothing else: `e = abs(x); out = ((e - y >= 1) and (e <= 2))`."""
+        kind = rng.choice(KINDS[:4])
+        a, b = rng.sample(['x', 'y', 'z'], 2)
+        term = rng.choice([lang.N('abs', lang.V(a)), lang.N('add', lang.V(a), lang.C(1.0)), lang.N('neg', lang.V(a)),
+                           lang.N('mul', lang.V(a), lang.C(2.0)), lang.N('sub', lang.C(3.0), lang.V(a))])
+        e = lang.V('sa')
+        mixed = lang.N(rng.choice(['sub', 'add', 'mul', 'sub']), *rng.sample([e, lang.V(b)], 2))
+        p1 = lang.N(rng.choice(['geq', 'leq', 'gt', 'lt']), mixed, lang.C(rng.choice([0.0, 1.0, 2.0])))
+        p2 = lang.N(rng.choice(['geq', 'leq', 'gt', 'lt']), e, lang.C(rng.choice([0.0, 1.0, 2.0])))
+        if rng.random() < 0.5:
+            wrap = rng.choice(['once', 'historically'])
+            p2 = lang.N(wrap, p2) if rng.random() < 0.5 else lang.N(wrap, p2, ivl=(0, rng.choice([1, 2])))
+        top = lang.N(rng.choice(['and', 'or', 'implies']), *rng.sample([p1, p2], 2))
+        f = lang.inline(top, [('sa', term)])
+        io = {a: rng.choice(['input', 'output']), b: rng.choice(['input', 'output'])}
+        case = {'formula': f, 'kind': kind, 'sem': rng.choice(SEMS[1:]), 'io': io,
+                'modular': {'top': lang.to_jsonable(top), 'defs': [['sa', lang.to_jsonable(term)]], 'consts': [],
+                            'style': rng.choice(['one-text', 'subspecs'])}}
+        names = sorted([a, b])
+        if kind.startswith('dt'):
+            case['data'] = lang.gen_trace(rng, names, rng.randint(2, 10))
+        else:
+            base = lang.gen_signal(rng, n=rng.randint(2, 7), start=Fr(0))
+            case['signals'] = sig_text(dict((k, [(t, rng.choice(lang.SMALL)) for (t, _) in base]) for k in names))
+        return case
+
+    def gen_eq_mirror(self, rng):
+        """Dense-time online, an overridden equality predicate on a signal that takes values at equal distances on
+        both sides of the constant within one batch (its robustness -|x-c| repeats while the sample is new)."""
+        a, b = rng.sample(['x', 'y', 'z'], 2)
+        c0 = rng.choice([0.0, 1.0])
+        p1 = lang.N(rng.choice(['eq', 'neq']), lang.V(a), lang.C(c0))
+        p2 = lang.N(rng.choice(['geq', 'leq']), lang.V(b), lang.C(rng.choice([0.0, 1.0])))
+        r = rng.random()
+        if r < 0.35:
+            f = lang.N(rng.choice(['and', 'or', 'implies']), *rng.sample([p1, p2], 2))
+        elif r < 0.7:
+            f = lang.N(rng.choice(['once', 'historically']), lang.N(rng.choice(['and', 'or', 'implies']), p1, p2),
+                       ivl=rng.choice([None, (0, 2), (1, 3)]))
+        else:
+            f = lang.N('since', p2, p1, ivl=rng.choice([None, (0, 3)]))
+        sem = rng.choice(SEMS[1:])
+        io = {a: 'input' if sem.startswith('output') else 'output', b: 'output' if sem.startswith('output') else 'input'}
+        n = rng.randint(4, 8)
+        vals = [c0 + d for d in (-2.0, -1.0, 0.0, 1.0, 2.0)]
+        sig = dict((k, [(Fr(i), rng.choice(vals)) for i in range(n)]) for k in (a, b))
+        return {'formula': f, 'kind': 'ct_on', 'sem': sem, 'io': io, 'signals': sig_text(sig),
+                'cuts': sorted(rng.sample(range(1, n), rng.randint(0, 2)))}
+
     def gen(self, rng, ctx):
+        r0 = rng.random()
+        if r0 < 0.05:
+            return self.gen_eq_mirror(rng)
+        if r0 < 0.13:
+            return self.gen_shared_term(rng)
         kind = rng.choice(KINDS)
         nv = rng.choice([1, 2, 3, 3])
         if kind.startswith('dt'):
@@ -78,6 +137,9 @@ class C06(Prop):
             c.future = False
         if rng.random() < 0.15:
             c.untyped = 0.2
+        modular = rng.random() < 0.2
+        if modular:
+            c.dup = 0.4
         f = lang.gen_formula(rng, c)
         if kind.endswith('pastified'):
             from rtverif import pastmodel
@@ -102,20 +164,34 @@ class C06(Prop):
             elif r < 0.85:
                 io[vname] = 'output'
         case = {'formula': f, 'kind': kind, 'sem': rng.choice(SEMS), 'io': io}
+        if modular and lang.depth(f) >= 2:
+            # the same formula as a modular specification: named sub-formulas (Boolean or arithmetic), every
+            # occurrence replaced by the name; the predicates "mention" what their names stand for
+            top, defs = lang.decompose(rng, f, rng.randint(1, 3))
+            if defs:
+                case['modular'] = {'top': lang.to_jsonable(top), 'defs': [[nm, lang.to_jsonable(g)] for nm, g in defs],
+                                   'consts': [], 'style': rng.choice(['one-text', 'subspecs'])}
+        if kind.startswith('ct_on') and rng.random() < 0.6:
+            case['cuts'] = sorted(rng.sample(range(1, 8), rng.randint(0, 3)))
         if kind.startswith('dt'):
             case['data'] = lang.gen_trace(rng, names, rng.randint(1, 14) + (lang.horizon(f) if kind.endswith('pastified')
                                                                           else 0))
         else:
             if kind in ('ct_on', 'ct_on_pastified'):
                 base = lang.gen_signal(rng, n=rng.randint(2, 7), start=Fr(0))
-                sig = dict((k, [(t, rng.choice(lang.SMALL)) for (t, _) in base]) for k in names)
+                # often a small symmetric integer alphabet: values on thresholds, equal distances on both sides
+                vals = [-2.0, -1.0, 0.0, 1.0, 2.0] if rng.random() < 0.4 else lang.SMALL
+                sig = dict((k, [(t, rng.choice(vals)) for (t, _) in base]) for k in names)
             else:
                 sig = lang.gen_signals(rng, names)
             case['signals'] = sig_text(sig)
         return case
 
-    def run_real(self, kind, text, names, sem, io, data=None, sig=None):
+    def run_real(self, kind, text, names, sem, io, data=None, sig=None, modular=None, cuts=None):
         sd = {'text': text, 'vars': names, 'semantics': sem, 'io': io}
+        if modular:
+            from rtverif.props.c09 import modular_sd
+            sd.update(modular_sd(modular, names))
         if kind == 'dt_off':
             return drive.values(drive.Mon('dt', sd).evaluate(drive.dt_dataset(data)))
         if kind in ('dt_on', 'dt_on_pastified'):
@@ -128,7 +204,8 @@ class C06(Prop):
         n = len(sig[names[0]])
         half = max(1, n // 2)
         out = []
-        for a, b in ((0, half), (half, n)):
+        bounds = [0] + [c for c in (cuts or [half]) if 0 < c < n] + [n]
+        for a, b in zip(bounds, bounds[1:]):
             if a < b:
                 out += m.update(*[[k, [[float(t), v] for t, v in sig[k][a:b]]] for k in names])
         return out
@@ -163,7 +240,10 @@ class C06(Prop):
             v.skip = 'reference undefined (domain error)'
             return v
         try:
-            got = self.run_real(kind, text, names, sem, io, data=None if dense else data, sig=sig if dense else None)
+            if case.get('modular'):
+                v.info['class:modular'] = 1
+            got = self.run_real(kind, text, names, sem, io, data=None if dense else data, sig=sig if dense else None,
+                                modular=case.get('modular'), cuts=case.get('cuts'))
         except Exception as e:
             if dense and all(x != x for x in exp.vs):
                 v.skip = 'raised on a completely NaN-tainted formula'
@@ -209,7 +289,7 @@ class C06(Prop):
             io2 = dict((k, 'input' if t == 'output' else 'output') for k, t in io.items())
             try:
                 got2 = self.run_real(kind, text, names, sem, io2, data=None if dense else data,
-                                     sig=sig if dense else None)
+                                     sig=sig if dense else None, modular=case.get('modular'), cuts=case.get('cuts'))
             except Exception as e:
                 v.bad('raises:' + type(e).__name__, '%s: flipped io raised %s' % (what, type(e).__name__))
                 return v
